@@ -64,11 +64,17 @@ func c10Run(r *zsim.Run) {
 	slowCb := !long && o.Intn(4) == 0
 	// some runs do not wait for the wheel to digest an operation before issuing the next one
 	eager := !long && o.Intn(3) == 0
+	panicCb := o.Intn(5) == 0
 	tw, err := NewTimingWheel(interval, slots, func(k, v any) {
 		fired = append(fired, c10Fire{k.(string), v.(int), tickOf(), false})
 		r.Logf("fire %v=%v tick %d", k, v, tickOf())
 		if slowCb && o.Intn(2) == 0 {
 			zsim.Sleep(zsim.Pick(o, interval/2, interval, 3*interval))
+		}
+		if panicCb && o.Intn(3) == 0 {
+			// fault: the callback panics after its work; the other tasks of the tick must still fire
+			r.FaultFired("callback-panicked")
+			panic("callback failed")
 		}
 	})
 	if err != nil {
